@@ -15,12 +15,33 @@
  * 51 Franklin Street, Fifth Floor, Boston, MA 02110-1301 USA.
  */
 
+#include <cmath>
+#include <stdexcept>
 #include <string>
 
 #include "oomd/Log.h"
 #include "oomd/include/Types.h"
 #include "oomd/util/PluginArgParser.h"
 #include "oomd/util/Util.h"
+
+namespace {
+// The std::sto* functions stop at the first character they cannot use, so
+// "5x" or "1.5" would be read as the integer 5 or 1. An argument value must
+// be a number as a whole.
+void requireWholeString(const std::string& str, size_t parsed_len) {
+  if (parsed_len != str.size()) {
+    throw std::invalid_argument("not a number: \"" + str + "\"");
+  }
+}
+
+template <typename T>
+T requireFinite(T val, const std::string& str) {
+  if (!std::isfinite(val)) {
+    throw std::invalid_argument("not a finite number: \"" + str + "\"");
+  }
+  return val;
+}
+} // namespace
 
 namespace Oomd {
 
@@ -38,7 +59,9 @@ std::unordered_set<CgroupPath> PluginArgParser::parseCgroup(
 }
 
 int PluginArgParser::parseUnsignedInt(const std::string& intStr) {
-  int res = std::stoi(intStr);
+  size_t pos = 0;
+  int res = std::stoi(intStr, &pos);
+  requireWholeString(intStr, pos);
   if (res < 0) {
     throw std::invalid_argument("must be non-negative");
   }
@@ -105,22 +128,35 @@ std::unordered_set<std::string> PluginArgParser::validArgNames() {
 
 template <>
 int64_t PluginArgParser::parseValue(const std::string& valueString) {
-  return std::stoull(valueString);
+  size_t pos = 0;
+  // signed: stoull would wrap "-1" and accept values above INT64_MAX
+  int64_t res = std::stoll(valueString, &pos);
+  requireWholeString(valueString, pos);
+  return res;
 }
 
 template <>
 int PluginArgParser::parseValue(const std::string& valueString) {
-  return std::stoi(valueString);
+  size_t pos = 0;
+  int res = std::stoi(valueString, &pos);
+  requireWholeString(valueString, pos);
+  return res;
 }
 
 template <>
 double PluginArgParser::parseValue(const std::string& valueString) {
-  return std::stod(valueString);
+  size_t pos = 0;
+  double res = std::stod(valueString, &pos);
+  requireWholeString(valueString, pos);
+  return requireFinite(res, valueString);
 }
 
 template <>
 float PluginArgParser::parseValue(const std::string& valueString) {
-  return std::stof(valueString);
+  size_t pos = 0;
+  float res = std::stof(valueString, &pos);
+  requireWholeString(valueString, pos);
+  return requireFinite(res, valueString);
 }
 
 template <>
@@ -145,7 +181,10 @@ std::string PluginArgParser::parseValue(const std::string& valueString) {
 template <>
 std::chrono::milliseconds PluginArgParser::parseValue(
     const std::string& valueString) {
-  return std::chrono::milliseconds(std::stoll(valueString));
+  size_t pos = 0;
+  auto res = std::stoll(valueString, &pos);
+  requireWholeString(valueString, pos);
+  return std::chrono::milliseconds(res);
 }
 
 template <>
